@@ -228,10 +228,10 @@ fn cfgs(tier: &str) -> Vec<BackendCfg> {
         rotation: rot,
         fsync: "always".into(),
     };
-    let mut v = vec![mk("euclidean", 2, 0, 1 << 20, 64), mk("cosine", 2, 2, 1, 64)];
+    // the capacity-3 configuration carries the index-full class (refusals at capacity)
+    let mut v = vec![mk("euclidean", 2, 0, 1 << 20, 64), mk("cosine", 2, 2, 1, 64), mk("euclidean", 3, 2, 1 << 20, 3)];
     if tier == "thorough" {
         v.push(mk("inner_product", 3, 0, 1, 3));
-        v.push(mk("euclidean", 3, 2, 1 << 20, 3));
     }
     v
 }
@@ -307,6 +307,21 @@ pub fn worker(wi: usize, wn: usize, tier: &str) {
                 // only meaningful if the prefix itself still executes
                 let op = Op::Ins { id: 20, v: vec_for(cfg.dim, 0.5, 0.5), m: Default::default() };
                 check_case(&ctx, &hh[..hh.len().min(h.len() + 3)], &op, false, || {}, "index-full", json!({}), &mut st);
+                // ... an OVERWRITE of a live id at capacity (an overwrite takes a fresh slot and
+                // tombstones the old one, so it is refused too — and must be refused before
+                // anything reaches the log), a metadata update and a delete on the full index
+                let ow = Op::Ins { id: 10, v: vec_for(cfg.dim, 0.5, 0.5), m: meta1("o", "1") };
+                check_case(&ctx, &hh, &ow, true, || {}, "index-full", json!({"shape": "overwrite-live-id-no-tombstone"}), &mut st);
+                check_case(&ctx, &hh, &Op::UpdMeta { id: 11, m: meta1("u", "1"), merge: true }, true, || {}, "index-full", json!({"shape": "update-metadata"}), &mut st);
+                check_case(&ctx, &hh, &Op::Del { id: 12 }, true, || {}, "index-full", json!({"shape": "delete"}), &mut st);
+                // ... and a full index holding one tombstone (ids 10, 11, then 10 overwritten):
+                // overwrite and new id both go through tombstone compaction first
+                let mut ht = h.clone();
+                ht.push(Op::Ins { id: 10, v: vec_for(cfg.dim, 0.3, 0.4), m: Default::default() });
+                ht.push(Op::Ins { id: 11, v: vec_for(cfg.dim, 0.3, -0.4), m: Default::default() });
+                ht.push(Op::Ins { id: 10, v: vec_for(cfg.dim, 0.4, 0.3), m: meta1("v", "2") });
+                check_case(&ctx, &ht, &Op::Ins { id: 11, v: vec_for(cfg.dim, 0.5, 0.5), m: meta1("o", "2") }, true, || {}, "index-full", json!({"shape": "overwrite-live-id-one-tombstone"}), &mut st);
+                check_case(&ctx, &ht, &Op::Ins { id: 20, v: vec_for(cfg.dim, 0.5, 0.5), m: Default::default() }, false, || {}, "index-full", json!({"shape": "new-id-one-tombstone"}), &mut st);
             }
             // (ii) storage faults
             for op in faulted_ops(cfg.dim) {
